@@ -41,6 +41,17 @@ def config_files(quick):
                 fail_sets=[[], [[1, 2, 1]], [[2, 2, 1]]], log_sevs=[4, 2, 3])
 
 
+def config_many(quick):
+    """Many members in one list, all or most of them failing on the same record."""
+    opt = lambda k, a, b=0: dict(k=k, a=a, b=b)
+    many = [opt("Writer", 1)] + [opt("AddWriter", w) for w in (2, 3, 4, 5, 6, 41)] + [opt("ErrorWriter", 2)] + [opt("AddErrorWriter", w) for w in (1, 5, 6)]
+    fs = [[], [[1, w, 1] for w in (1, 2, 3, 4, 5, 6)], [[1, w, 1] for w in (1, 2, 3, 4, 5)], [[1, w, 1] for w in (2, 3, 5, 6)] + [[2, 2, 1], [2, 1, 1], [2, 5, 1], [2, 6, 1]],
+          [[1, 1, 1], [1, 6, 1], [2, 6, 1]]]
+    return dict(max_loggers=2, init_level=5, names=[], bool_lists=[[]], layouts=[""], opt_lists=[many],
+                setter_args={"Level": [(4, 0)]}, acts=["NewDetached", "LogF"], probe_sevs=PROBES, wlevels=[], max_list=8,
+                fail_sets=fs, log_sevs=[4, 2, 3])
+
+
 def rand_config(c):
     r = dict(c)
     r["acts"] = ["Set", "LogF", "LogF", "With"]
@@ -72,6 +83,8 @@ def run(ctx, replay):
                      rand_loggers=3, rand_cfg=rc, key_fn=explain)
     corelib.run_core(ctx, config_files(ctx.quick()), invariants=["BoundedReaction", "RouteOK"], properties=[], obs=OBS,
                      rand_count=0, rand_depth=0, rand_loggers=1, key_fn=explain, tag="files")
+    corelib.run_core(ctx, config_many(ctx.quick()), invariants=["BoundedReaction", "RouteOK"], properties=[], obs=OBS,
+                     rand_count=0, rand_depth=0, rand_loggers=2, key_fn=explain, tag="many")
     ctx.extra["fail_assignments"] = len(c["fail_sets"])
     ctx.assumptions += ["faults are injected by the recording writers (Write returns an error and writes nothing)",
                         "real stdout/stderr never fail",
